@@ -1,13 +1,16 @@
 """C10 - the conductor survives faults: no panic, no hang, errors reported, orderly close."""
 from vlib.term import z, to_coq
 from props import cond_common as cc
+from props import c10cnc as cn
 
 ID = 'C10'
 PROP_FILE = 'Props/C10.v'
-EVAL_FILES = ['Oracle/C10Oracle.v']
-CRATES = ['c09']
+EXTRA_PROP_FILES = ['Props/C10Connect.v']
+EVAL_FILES = ['Oracle/C10Oracle.v', 'Oracle/C10CncOracle.v']
+CRATES = ['c09', 'c10cnc']
 MODES = ['debug']
-IMPORTS = 'Require Import V.Base.MachineInt V.Model.Conductor V.Oracle.C09Oracle V.Oracle.C10Oracle.'
+IMPORTS = ('Require Import V.Base.MachineInt V.Model.Conductor V.Model.ConductorReent V.Oracle.C09Oracle V.Oracle.C10Oracle '
+           'V.Model.Connect V.Model.CncLayout V.Model.Agent V.Oracle.C10CncOracle.')
 PER_CASE_TIMEOUT = 8.0
 CHUNK = 40
 RULE = ('fault histories of up to 70 operations on a full in-process client (harness/c09: real conductor, ring, broadcast transmitter / receiver / '
@@ -16,15 +19,33 @@ RULE = ('fault histories of up to 70 operations on a full in-process client (har
         'at close / client time-out / stall / heartbeat loss, repeated stalls, silent driver, close with every kind of resource in every '
         'registration state), then random histories mixing registrations and answers with overruns, oversize messages, stalls beyond the '
         'inter-service time-out, stale / negative driver heartbeats, heartbeat-counter loss, client time-outs (own and foreign id) and close; '
-        'a case is non-trivial when it contains a fault or a close and at least one registration; distinct = distinct histories')
+        'a case is non-trivial when it contains a fault or a close and at least one registration; distinct = distinct histories. '
+        'Around the conductor (harness/c10cnc): Aeron::map_cnc_file on fabricated CnC files - scripted environments (file missing / empty / '
+        'version 0 / wrong major / heartbeat 0 / stale / fresh, changing at chosen clock calls, clock values from the script through the clock hook; '
+        'observation = verdict + number of clock calls) and real-time runs with 50-600 ms time-outs under a watchdog (verdict + returned within '
+        'time-out + 400 ms); Aeron::new + Drop in invoker and runner mode; cnc_file_descriptor regions and getters for boundary and random '
+        'meta data (negative / overflowing lengths, short files); AgentInvoker call sequences and AgentRunner::run scripts with a scripted agent '
+        '(do_work results, start / close errors, stop signals true and false at chosen duty cycles); AgentRunner::start / stop on a real thread '
+        'for every idle strategy of the crate')
 ASSUMPTIONS = [
     'driver events are well formed (ASCII strings, counter ids inside the counters buffer, existing log file, exclusive-publication answers '
-    'with registration id = correlation id, known message type ids - C14); error code 4 (channel endpoint) is not generated',
-    'the command ring either has room or (SetRingFull) refuses every command - its capacity arithmetic is C06\'s; strings fit the 512-byte scratch buffer (C13); callbacks do not call back into the client',
+    'with registration id = correlation id, known message type ids - C14); an ErrorResponse with error code 4 (channel endpoint error) carries a channel status indicator id in its correlation-id field (generated: ids of live resources, other ids, ids that only agree as i32)',
+    'the command ring either has room or (SetRingFull) refuses every command - its capacity arithmetic is C06\'s; a command that does not fit the 512-byte scratch buffer is refused with IllegalArgument (boundary cases generated); '
+    'callbacks that call back into the client are generated (op cs): they dead-lock - finding reentrant-call-deadlock, theorems C10_reentrant_call_deadlocks / C10_total_unless_reentrant',
     'the clock stays below 2^62 and above the linger time-out, so that now_ms - linger does not underflow (C11/C12)',
     'one thread drives the client: real scheduling of the agent thread against API threads and lock-order questions are outside the model',
+    'connect loop: 0 <= media driver time-out <= clock value (Unix ms) < 2^64 and start + time-out < 2^64, so that the u64 arithmetic of the source is '
+    'exact (outside: debug panic / release wrap, witnessed by C10_connect_tiny_clock_debug_panics); the statement "no panic" is for CnC files a '
+    'driver can have left: absent, empty, or at least as long as the meta data plus the to-driver region it announces, ring capacity a power of '
+    'two (a corrupt length word reaches the `expect` in map_cnc_file: modelled, compared, not judged); one observation covers open + mmap + size',
+    'cnc_file_descriptor: regions are judged for non-negative lengths whose sum with the aligned meta data fits an Index, on a file holding the meta data',
+    'AgentRunner: the idle strategy does not panic (NoOpIdleStrategy is unimplemented!(): modelled and compared, not judged); AgentInvoker: '
+    'start() is not called for the first time after close() (kept as in Agrona; witnessed by C10_invoker_start_after_close_runs)',
 ]
-TRUSTED = ['harness/c09 watchdog: an operation that does not return within 3 s is recorded as Hang (the runner kills the process after its own time-out as a backstop)']
+TRUSTED = ['harness/c10cnc: watchdogs (time-out + 2.5 s for map_cnc_file / Aeron::new, 2.5 s for drop and AgentStopper::stop); the clock hook '
+           '(verif_hook::clock_override, hooks/cnc-clock.diff) when the repository copy has it - the scripted connect cases are skipped without it; '
+           'file states are played through the file system (every generation of cnc.dat the case created keeps receiving the scripted words)',
+           'harness/c09 watchdog: an operation that does not return within 3 s is recorded as Hang (the runner kills the process after its own time-out as a backstop)']
 
 
 def generate(rng, tier):
@@ -33,16 +54,59 @@ def generate(rng, tier):
     n = 500 if tier != 'thorough' else 20000
     for _ in range(n):
         cases.append(cc.gen_history(rng, tier, 'faults' if rng.random() < 0.8 else 'protocol'))
+    # callbacks that call back into the client (finding reentrant-call-deadlock): scripted, then random insertions
+    cases += cc.scripted_reent()
+    cases += cc.reent_histories(rng, 16 if tier != 'thorough' else 300)
+    # the code around the conductor; own random stream, so that the histories above stay what they were
+    import random
+    cases += cn.generate(random.Random(rng.getrandbits(32) ^ 0xC10), tier)
     return cases
 
 
-impl_line = cc.impl_line
-model_expr = cc.model_expr
-shrink = cc.shrink
+def _mine(case):
+    return case.get('crate') == cn.CRATE
+
+
+def impl_line(case):
+    return cn.impl_line(case) if _mine(case) else cc.impl_line(case)
+
+
+def model_expr(case, mode):
+    return cn.model_expr(case, mode) if _mine(case) else cc.model_expr(case, mode)
+
+
+def shrink(case):
+    return [] if _mine(case) else cc.shrink(case)
+
+
 normalize = cc.normalize
 
 
+def known_class(case, mode, obs):
+    if _mine(case):
+        return None
+    return 'reentrant-call-deadlock' if cc.reentrant_deadlock(case, obs) else None
+
+
+def extra_checks(run):
+    import os
+    import re
+    from vlib import core
+    # K1-reentrant: ensure_not_reentrant as the model describes it (reports through the error handler, does not refuse), and the
+    # conductor behind a std Mutex (the second lock of a callback's re-entrant call is what never returns)
+    src = open(os.path.join(core.REPO, 'src', 'client_conductor.rs')).read().split('#[cfg(test)]')[0]
+    norm = re.sub(r'\s+', ' ', src)
+    want = 'pub fn ensure_not_reentrant(&self) { if self.is_in_callback { let err = AeronError::ReentrantException; self.error_handler.call(err); } }'
+    aeron = re.sub(r'\s+', ' ', open(os.path.join(core.REPO, 'src', 'aeron.rs')).read())
+    ok = want in norm and 'conductor: Arc<Mutex<ClientConductor>>' in aeron and 'use std::sync::{Arc, Mutex}' in aeron.replace('Mutex, Arc', 'Arc, Mutex')
+    return [cc.hook_note(),
+            (ok, 'K1-reentrant', 'ensure_not_reentrant only reports to the error handler; Aeron holds the conductor as Arc<std::sync::Mutex<ClientConductor>>'
+             if ok else 'ensure_not_reentrant or the conductor lock changed: Model/ConductorReent.v no longer describes the source')]
+
+
 def oracle_expr(case, mode, obs):
+    if _mine(case):
+        return cn.oracle_expr(case, mode, obs)
     c = case['cfg']
     if isinstance(obs, int) or obs[0] != 'list':
         return 'false'     # the whole case crashed / hung: no per-operation observations
@@ -50,6 +114,8 @@ def oracle_expr(case, mode, obs):
 
 
 def nontrivial(case):
+    if _mine(case):
+        return cn.nontrivial(case)
     names = [o[0] for o in case['ops']]
     fault = any(n in ('wl', 'wo', 'cl', 'hc') for n in names) or any(o[0] == 'we' and o[1] in ('ct', 'er') for o in case['ops']) \
         or any(o[0] == 'tk' and o[1] > case['cfg'][3] for o in case['ops'])
